@@ -144,6 +144,8 @@ def gen_problem(rng, algs, alg_name=None, n=None, box=None, with_constraints=Non
     if rng.random() < 0.1:
         p["maxtime"] = rng.choice([0.5, 3.0])
         p["clockq"] = rng.choice([0.1, 1.0])
+        if rng.random() < 0.5:
+            p["clock0"] = rng.choice([8.0, 1024.0])
     if rng.random() < 0.15:
         p["pop"] = rng.choice([1, 3, 10, 25])
     if rng.random() < 0.1:
@@ -175,7 +177,7 @@ def gen_problem(rng, algs, alg_name=None, n=None, box=None, with_constraints=Non
     return p
 
 
-KEYS_HEX = ["stopval", "ftol_rel", "ftol_abs", "xtol_rel", "maxtime", "clockq"]
+KEYS_HEX = ["stopval", "ftol_rel", "ftol_abs", "xtol_rel", "maxtime", "clockq", "clock0"]
 KEYS_LIST = ["lb", "ub", "x0", "oc", "xtol_abs", "xw", "dx"]
 KEYS_RAW = ["alg", "n", "obj", "max", "maxeval", "pop", "vs", "seed", "ineq", "eq", "local", "stopat", "setforce", "forceval", "inj", "injc",
             "runs", "copy", "noobj", "nullx", "nullf", "params", "reseed", "quietx", "hooks", "runanyway", "negobj", "full_n", "fix", "legacy", "nullopt", "gpop", "glocal"]
